@@ -2,6 +2,7 @@
 CONSTANTS
   Mods = {"A", "B"}
   Order <- Order2
+  Collide = FALSE
   Hooks <- Hooks_life
   Flags <- Flags_none
   CtxPersist = FALSE
